@@ -6,6 +6,7 @@ from collections import OrderedDict
 
 from .algorithm import fill_in_let, expand_macros, expand_subcircuits
 from .algorithm.walkers import *
+from jaqalpaq.error import JaqalError
 
 
 def parse_jaqal_output_list(circuit, output):
@@ -300,7 +301,10 @@ class OutputParser(TraceVisitor):
 
     def process_trace(self):
         subcircuit = self.subcircuits[self.index]
-        nxt = next(self.data)
+        try:
+            nxt = next(self.data)
+        except StopIteration:
+            raise JaqalError("Not enough outputs for this circuit") from None
         if isinstance(nxt, str):
             nxt = int(nxt[::-1], 2)
         mr = Readout(nxt, self.readout_index)
